@@ -423,6 +423,64 @@ print(name, 'rows checked:', len(rows['observers']), 'violating:', len(bad))
 sys.exit(1 if bad else 0)
 """
 
+def native_trimesh_body(seed):
+    """TriangularMesh: J = polarization at points strictly inside the body, 0 strictly outside, B = mu0*H + J — for bodies from 1 m down to 0.2 mm
+    (the inside test must not depend on the size of the numbers), with and without a pose; returns (evaluations, messages)"""
+    import warnings
+
+    import magpylib as magpy
+    from scipy.spatial.transform import Rotation as R
+
+    warnings.simplefilter("ignore")
+    rng = np.random.default_rng(seed)
+    mu0 = magpy.mu_0
+    pol = np.array((0.1, 0.2, 0.3))
+    bad, n = [], 0
+    octa = np.array([(1, 0, 0), (-1, 0, 0), (0, 1, 0), (0, -1, 0), (0, 0, 1), (0, 0, -1)], dtype=float)
+    cube = np.array([(x, y, z) for x in (-1, 1) for y in (-1, 1) for z in (-1, 1)], dtype=float)
+    for size, (shape, pts, inside_fn), posed in itertools.product((1.0, 1e-3, 3e-4, 2e-4), (("cube", cube, lambda p: np.abs(p).max(axis=1)), ("octahedron", octa, lambda p: np.abs(p).sum(axis=1))), (False, True)):
+        pos = rng.normal(size=3) * size if posed else np.zeros(3)
+        ori = R.from_rotvec(rng.normal(size=3)) if posed else R.identity()
+        try:
+            m = magpy.magnet.TriangularMesh.from_ConvexHull(points=pts * size, polarization=pol, position=pos, orientation=ori)
+            loc = rng.uniform(-1.6, 1.6, size=(60, 3))
+            lvl = inside_fn(loc)
+            keep = (lvl < 0.95) | (lvl > 1.05)
+            loc, lvl = loc[keep], lvl[keep]
+            obs = ori.apply(loc * size) + pos
+            B, H, J = m.getB(obs), m.getH(obs), m.getJ(obs)
+        except Exception as e:  # pylint: disable=broad-except
+            bad.append(f"{shape} of size {size:g}: raised {type(e).__name__}: {e}")
+            continue
+        n += len(obs)
+        Jexp = np.where((lvl < 1)[:, None], ori.apply(pol), 0.0)
+        wrongJ = np.abs(J - Jexp).max(axis=1) > 1e-12
+        wrongI = np.abs(B - mu0 * H - J).max(axis=1) > 1e-9 * (np.abs(B).max() + 1e-300)
+        if wrongJ.any():
+            i = int(np.argmax(wrongJ))
+            bad.append(f"{shape} of size {size:g} m{' (moved and rotated)' if posed else ''}: J at a point strictly {'inside' if lvl[i] < 1 else 'outside'} the body is {J[i].tolist()} "
+                       f"({int(wrongJ.sum())} of {len(obs)} points)")
+        elif wrongI.any():
+            bad.append(f"{shape} of size {size:g} m: B != mu0*H + J at {int(wrongI.sum())} of {len(obs)} points")
+    return n, bad
+
+
+REPLAY_TMB = """import sys
+from checks.c02 import native_trimesh_body
+n, bad = native_trimesh_body({seed})
+for b in bad[:6]: print(b)
+sys.exit(1 if bad else 0)
+"""
+
+
+def native_segment_interior(dim, point):
+    """J at an interior point of a partial-angle segment (witness of the known finding segment-angles-beyond-360)"""
+    import magpylib as magpy
+
+    s_ = magpy.magnet.CylinderSegment(dimension=dim, polarization=(0.1, 0.2, 0.3))
+    return np.allclose(s_.getJ(point), (0.1, 0.2, 0.3))
+
+
 KNOWN_WITNESS = {
     "cylinder-edge": ("Cylinder", dict(observers=[[1.0, 0.0, 1.0]], dimension=[[2.0, 2.0]], polarization=[[0.3, 0.2, 1.0]])),
     "segment-surface": ("CylinderSegment(partial angle)",
@@ -467,6 +525,9 @@ def main(tier, seed):
             f0 = next(f for f in fails if f.get("known_region") == rid)
             rep.violation(f0["name"], {"why": "refuted (region not listed in known_findings.json)", "region": rid}, found_input=False)
             continue
+        if rid == "segment-angles-beyond-360":
+            if native_segment_interior((1, 2, 1, 350, 380), (1.5 * np.cos(np.deg2rad(5)), 1.5 * np.sin(np.deg2rad(5)), 0.1)):
+                rep.notes.append(f"known finding {rid}: witness no longer fails natively")
         if rid in KNOWN_WITNESS:
             nm, rows = KNOWN_WITNESS[rid]
             bad = native_check(nm, rows, skip_known=False)
@@ -526,6 +587,12 @@ def main(tier, seed):
                 "concentric cubes, shared-facet tetrahedra, shared-base pyramids, mixed facet counts", [dict(family="concentric cubes", order=[0, 1])], failures=len(bad_tm), exhaustive=True)
     if bad_tm and not rep.violations:
         rep.violation("standin.trimesh-J-inside-own-body", {"native_result": bad_tm[0], "script": REPLAY_TM.format(seed=seed)})
+    ntb, bad_tb = native_trimesh_body(seed)
+    rep.standin("TriangularMesh: J = polarization strictly inside / 0 strictly outside and B = mu0*H + J, bodies from 1 m down to 0.2 mm, with and without a pose",
+                "2 shapes x 4 sizes x {identity, random pose} x ~45 points", ntb, ntb, "random points at least 5 % of the size away from the surface", [dict(shape="octahedron", size=3e-4)],
+                failures=len(bad_tb), exhaustive=False)
+    for b in bad_tb[:2]:
+        rep.violation("standin.trimesh-body", {"native_result": b, "script": REPLAY_TMB.format(seed=seed)})
     rep.standin("native B=mu0*H+J / J=mu0*M / J in {0,pol} on random and special rows (faces, edges, axis), all wrappers",
                 f"{nrows} rows per wrapper", total, total, "random rows incl. rows placed on faces/edges; known regions skipped",
                 samples, failures=nbad)
